@@ -277,6 +277,27 @@ Proof.
   split; [intros n c s; apply ideal_decs_auth|]. vm_compute. repeat split; reflexivity.
 Qed.
 
+(* (f) KEYSET-LEVEL READER (streamingaead.New(handle).NewDecryptingReader,
+   decrypt_reader.go with its unreader).  dr_reads = the results of every Read
+   call of the keyset-level reader, whose candidate readers consume the source
+   through the replaying unreader; spec_reads = try every enabled key, in
+   keyset order, as a single-key reader on the WHOLE stream c0 from its
+   beginning (dr_spec), take the first whose header check and first Read
+   succeed, and continue with that single-key reader; no key: every call
+   fails.  They agree for every keyset, associated data, source (data and
+   fault position), first-Read size and later Read sizes — i.e. the bytes the
+   failed candidates consumed are replayed exactly, also after the buffer is
+   disabled.  No oracle law is needed. *)
+Theorem C07_keyset_reader_replays :
+  forall (hkdf : hash -> bytes -> bytes -> bytes -> nat -> bytes)
+         (gcm_open : bytes -> bytes -> bytes -> option bytes)
+         (aes_ctr : bytes -> bytes -> bytes -> bytes) (hmac : hash -> bytes -> bytes -> bytes)
+         (keys : list skey) (aad : bytes) (c0 : src) (sizes : list nat),
+    dr_reads hkdf gcm_open aes_ctr hmac keys aad (dr_new c0) sizes =
+    spec_reads hkdf gcm_open aes_ctr hmac keys aad c0 sizes.
+Proof. exact keyset_reader_spec. Qed.
+Print Assumptions C07_keyset_reader_replays.
+
 (* Non-vacuity: the toy segment cipher of the correspondence run satisfies the
    premises (overhead 4), and a concrete history computes as the theorems say. *)
 Example C07_premises_inhabited :
